@@ -15,7 +15,8 @@ labels that look like keywords fall through), C08.F-label (labels reach namelist
 statement gets the next free position and dict maps it to that position), S.P-parse (every call of the parse closure in
 CLI and server sends its Err outcome to a panic resp. an error value, never to a semantics call or a print),
 C08.P-panic (census of panic sites reachable from parse), C08.A-alphabet (producer/consumer contract between the label
-alphabet of the grammar and the variable-name precondition of biodivine)."""
+alphabet of the grammar and the variable-name precondition of biodivine), C09.A-term and C07.T-conn (what each Formula variant is compiled to, natively
+and for biodivine, with operand order: the meaning of the keywords is observable only through this composition)."""
 NOT_DECIDED = "Language inclusion 'every documented input is accepted' in general: nom's combinator semantics are trusted and whitespace placement beyond the listed skeleton is not modelled."
 TECHNIQUE = "static analysis: grammar extraction from resolved combinator calls (MIR expression reconstruction) compared with the specified grammar; CFG reachability from Err edges; provenance of labels"
 
@@ -503,6 +504,11 @@ def check(ctx):
         F_label(ctx, lib)
         P_panic(ctx, lib)
         A_alphabet(ctx, lib)
+        # keyword -> Formula variant (grammar rules above) -> operation: 'a formula denoting the Boolean function written in the file' is observable only through what the
+        # variants are compiled to, natively (Adf::term + the connective tables) and for biodivine (to_boolean_expr): C08.A-ops = C09.A-term o C07.T-conn
+        from rules import C09, kernel as _k
+        C09.A_term(ctx, lib)
+        _k.T_conn(ctx, lib)
     ctx.cfg = "bin@default"
     bin_ = ctx.load(facts.Config("bin"))
     P_parse(ctx, bin_, floor=3, key_prefix="bin:")
